@@ -12,7 +12,7 @@ BODY_LINES = ['Format: 3.0 (quilt)', 'Source: zlib', '', '- -----dash escaped', 
 
 
 def b64line(rng, n=None):
-    n = n or rng.randint(1, 64)
+    n = n or (rng.choice([64, 65, 75, 76, 76]) if rng.random() < .3 else rng.randint(1, 76))      # RFC 4880: up to 76 characters per line
     return ''.join(rng.choice(B64) for _ in range(n))
 
 
@@ -291,6 +291,23 @@ def run(ctx):
                 if not ok or sgn is not True:
                     fails.append((t, 'well-formed message with %d white-space characters before it and %d after: is_signed %r, body %r, returned %.80r'
                                   % (pre, post, sgn, body, r)))
+    # the same texts with other white space around them, asked one after the other: each answer is about its own input
+    for t in (mal[:ctx.n(600, 6000)] + [w[0] for w in wf[:100]]):
+        variants = [t, '\n' + t, ' \n' + t + '\n\n', t.strip(), '\n\n' + t.strip() + ' ']
+        for v in variants:
+            r = call(unsign.remove_signature, v)
+            sg = call(lambda x: bool(unsign.is_signed(x)), v)
+            st['cases'] += 1
+            ctx.evaluations += 1
+            if not isinstance(r, str) or r not in v:
+                fails.append((v, 'asked after the same text with other white space around it: result %.80r is not a contiguous part of the input' % (r,)))
+                break
+            if sg is False and r != v:
+                fails.append((v, 'asked after the same text with other white space around it: no envelope, but the text is changed'))
+                break
+        # and what is returned for one spelling is what a lone question returns (answers computed at the start of the run)
+        if ('remove_signature', t) in by and call(unsign.remove_signature, t) != by[('remove_signature', t)]:
+            fails.append((t, 'remove_signature answers %.80r now and %.80r when asked first' % (call(unsign.remove_signature, t), by[('remove_signature', t)])))
     # through the paragraph parser: the flag means "remove the signature, then parse", whatever stands before the envelope
     pp = [w[0] for w in wf[:ctx.n(500, 5000)]]
     pp += [pre + t for t in pp[:200] for pre in ('\n', '\n\n', ' \n', '\r\n')] + nest[:100] + mal[:300]
